@@ -204,6 +204,10 @@ func buildC15(tier string, seed int64) *Family {
 			insts = append(insts, totalInst("//*[count("+ax+"::*) > 1]", big), totalInst("//*["+ax+"::*[a]]", big), totalInst("//*[not("+ax+"::a)]/"+ax+"::*", big))
 		}
 	}
+	for _, t := range []string{"//*[descendant::a/descendant::b]", "//*[descendant::*/descendant::*]", "//*[descendant::a//b]", "//*[(a)[1]]", "//*[a/b[1]]", "//*[*[*]]", "//*[descendant-or-self::a/descendant::*]",
+		"count(//*[descendant::*/descendant::*])", "//*[not(descendant::a/descendant::*)]", "//*[a[position() > 0]]", "//*[(*)[last()]]", "//*[*/*[last()]]"} {
+		insts = append(insts, totalInst(t, big))
+	}
 	can := totalInst("a", cfg)
 	can.ID = "canary " + can.ID
 	can.Params["canary"] = "1"
@@ -227,5 +231,5 @@ func perInstC15(tier string) time.Duration {
 	if tier == "thorough" {
 		return 10 * time.Minute
 	}
-	return 90 * time.Second
+	return 240 * time.Second
 }
